@@ -38,8 +38,42 @@ CORPUS = [
 EXTRA = ["StreamzVerif.Props.C01Sem", "StreamzVerif.Props.C01Compose"]
 
 
+def indexed_key_sample(ctx, n):
+    """partition / partition_unique take their key as a callable OR as an index / field name (`x[key]`): records are tuples, the key is
+    given as an index (0 is falsy), and the node is compared with the documented meaning evaluated with the equivalent callable."""
+    from streamz import Stream
+    from .. import oracle_graph
+    rng = ctx.rng
+    for _ in range(n):
+        kind = rng.choice(["partition_unique", "partition_unique", "partition"])
+        idx = rng.choice([0, 0, 1])
+        nd = {"kind": kind, "n": rng.choice([2, 3]), "key": [["fst"], ["snd"]][idx], "keep": rng.choice(["first", "last"]), "ups": [0]}
+        recs = [(rng.choice([0, 1, 2, 0]), rng.choice([0, 1, 2, 3])) for _ in range(rng.randint(3, 10))]
+        case = {"indexed_key": True, "node": nd, "index": idx, "records": [list(r) for r in recs]}
+        src = Stream()
+        node = (src.partition_unique(nd["n"], key=idx, keep=nd["keep"]) if kind == "partition_unique"
+                else src.partition(nd["n"], key=idx))
+        got = node.sink_to_list()
+        orc = oracle_graph.NodeOracle(nd, [0])
+        want, err = [], None
+        for r in recs:
+            try:
+                src.emit(r)
+            except Exception as e:      # noqa: BLE001
+                err = type(e).__name__
+                break
+            want += [o[0] for o in orc.feed((0, r, []))]
+        ctx.case(case, nontrivial=len(recs) >= 4)
+        ctx.count("indexed-key:" + kind)
+        if err or [tuple(map(tuple, b)) for b in got] != [tuple(map(tuple, b)) for b in want]:
+            ctx.failure("semantics:indexed-key", "%s(n=%d, key=%d%s) over %r delivered %r%s; with the key function x[%d] the documented meaning is %r"
+                        % (kind, nd["n"], idx, ", keep=%s" % nd["keep"] if kind == "partition_unique" else "", recs, got,
+                           " and raised %s" % err if err else "", idx, want), case)
+
+
 def run(ctx):
     ctx.audit(extra_modules=EXTRA)
+    indexed_key_sample(ctx, 40 if not ctx.thorough() else 800)
     n = 400 if not ctx.thorough() else 12000
     graphcheck.run_family(ctx, n, ASPECTS, CHECKS, SIGS, corpus=CORPUS)
     # one emission in eight is not an integer (None, a string, a tuple, a list): type-agnostic nodes pass them on like anything else,
@@ -59,5 +93,9 @@ def run(ctx):
 
 def replay(ctx, data):
     ctx.audit(extra_modules=EXTRA)
+    if data["case"].get("indexed_key"):
+        indexed_key_sample(ctx, 40)
+        ctx.coverage["rule"] = "replay: indexed key sample"
+        return
     graphcheck.replay_case(ctx, data["case"], ASPECTS, CHECKS, SIGS)
     ctx.coverage["rule"] = "replay of one recorded case"
